@@ -184,8 +184,17 @@ impl Compactor {
 		let snapshots = self.options.snapshot_tracker.get_all_snapshots();
 
 		// Create a compaction iterator that filters tombstones and respects snapshots
+		// Tombstones may only be dropped where nothing lies underneath. A store written with
+		// more levels than `level_count` says now (reopened with fewer) still has tables
+		// below `level_count - 1`: dropping a tombstone above them would bring the versions
+		// it hides back.
 		let max_level = self.options.lopts.level_count - 1;
-		let is_bottom_level = input.target_level >= max_level;
+		let nothing_below = {
+			let manifest = self.options.level_manifest.read()?;
+			let levels = manifest.levels.get_levels();
+			levels.iter().skip(input.target_level as usize + 1).all(|level| level.tables.is_empty())
+		};
+		let is_bottom_level = input.target_level >= max_level && nothing_below;
 		let mut comp_iter = CompactionIterator::new(
 			merge_iter,
 			Arc::clone(&self.options.lopts.internal_comparator) as Arc<dyn Comparator>,
